@@ -393,10 +393,10 @@ HBuildStep(k, rec, ly, s0) == LET s == Fresh(s0, rec) cur == Lookup(s.regs, rec.
   IF cur = <<>> THEN (IF Require(FALSE, k, rec, "TOOL", "build on an unknown builder") THEN s ELSE s)
   ELSE LET b == cur[2]
            prev == Lookup(s.memo, b)
-           same == prev = <<>> \/ prev[2] = rec.out
+           same == ~InDomain(b) \/ prev = <<>> \/ prev[2] = rec.out      \* a rejected request (BuildUnspecified) carries no claim, what follows it does
            s1 == BuildStep(k, [rec EXCEPT !.grp = 0], b, ly, s)      \* every pipeline property, on the model's registers
            o == rec.out
-           reflects == IF o.kind = "Ok" THEN /\ ExpectedOutcome(b) = "Ok" /\ o.ecl = WantLevel(b)
+           reflects == IF ~InDomain(b) THEN TRUE ELSE IF o.kind = "Ok" THEN /\ ExpectedOutcome(b) = "Ok" /\ o.ecl = WantLevel(b)
                                             /\ (b.mask < 0 \/ o.mask = b.mask) /\ (b.version < 1 \/ o.version = b.version) /\ (b.mode < 0 \/ o.mode = b.mode)
                        ELSE o.kind # "Err" \/ ExpectedOutcome(b) = o.why
        IN IF /\ Require(reflects, k, rec, "C14", "build does not reflect the final option values of its builder (last value wins, nothing else leaks in)")
